@@ -7,7 +7,7 @@ import os
 
 from hypothesis import strategies as st
 
-from btclib.exceptions import BTClibValueError
+from btclib.exceptions import BTClibTypeError, BTClibValueError
 from btclib.script import sig_hash
 from vlib import build
 from vlib.gens import common as g
@@ -23,7 +23,12 @@ RULE = (
 )
 ASSUMPTIONS = [
     "sighash_ref transcribes Core/BIP143/BIP341 correctly (validated on the 500 Core legacy vectors, BIP143 and BIP341 examples)",
-    "for a script code ending in a truncated push the bytes after the last readable opcode are kept verbatim (as the library documents); no consensus path observes that case",
+    "for a script code ending in a push that cannot be read (no consensus path observes its digest: such a script never verifies) the definitions part ways -- FindAndDelete keeps the tail verbatim, Core's "
+    "SerializeScriptCode since 0.14 stops after the push's length bytes: either digest, or a refusal, is accepted there (about 4% of the script codes)",
+    "a hash type with bit 31 set has an int32 and a uint32 spelling: the library is asked under both, must answer under at least one, and whatever it answers is the model's digest; "
+    "an amount outside 0..21e14 may be refused (BIP143 is silent on the sign of the 8 bytes), and what is answered for it is the model's digest",
+    "the model's legacy path is validated on Core's 500 sighash.json vectors, its BIP143 path on one BIP143 example (P2WPKH, ALL) and its BIP341 path on two of the BIP's key-path vectors: the other branches (ANYONECANPAY, NONE, annex, script path) "
+    "are an independent transcription checked against the library only",
 ]
 
 
@@ -75,15 +80,49 @@ def _lib(f, *a, **k):
     """('ok', bytes) or ('refused',)"""
     try:
         return ("ok", f(*a, **k))
-    except BTClibValueError:
+    except (BTClibValueError, BTClibTypeError):
         return ("refused",)
+
+
+def _separators(sc: bytes) -> int:
+    """OP_CODESEPARATORs at opcode boundaries (a 0xab inside a push is data)"""
+    return sum(1 for op, _, _ in ref.script_ops(sc) if op == 0xAB)
 
 
 def _tags(tx, ht, sc=b""):
     t = [f"base{ht & 0x1F if ht & 0x1F in (1, 2, 3) else 'other'}", "acp" if ht & 0x80 else "noacp"]
-    if b"\xab" in sc:
+    if _separators(sc):
         t.append("codesep")
+    if ref.is_truncated(sc):
+        t.append("truncated-script-code")
     return tuple(t)
+
+
+def _spellings(ht: int) -> list[int]:
+    """the int32 and the uint32 spelling of a 32-bit hash type word (one and the same below 2^31)"""
+    w = ht & 0xFFFFFFFF
+    return [w] if w < 2**31 else [w, w - 2**32]
+
+
+def _judge(call, accepted: list, amount_in_range: bool = True):
+    """Ask the library under every spelling of the hash type. Whatever digest it answers is one of `accepted`; it answers under at least one
+    spelling (Core's nHashType is an int32, its test vectors write it signed, a caller reading four bytes off the wire has it unsigned: a
+    library may take both or either); an amount outside the money range may be refused. -> None or (what, detail)"""
+    outcomes = [(ht, _lib(call, ht)) for ht in call.spellings]
+    for ht, got in outcomes:
+        if got[0] == "ok" and got[1] not in accepted:
+            return "digest", f"hash_type={ht}: lib={got[1].hex()} ref={[a.hex() for a in accepted]}"
+    if all(got[0] == "refused" for _, got in outcomes) and call.must_answer and amount_in_range:
+        return "refused", f"hash_type spellings {call.spellings} all refused; ref={[a.hex() for a in accepted]}"
+    return None
+
+
+class _Call:
+    def __init__(self, fn, spellings, must_answer=True):
+        self.fn, self.spellings, self.must_answer = fn, spellings, must_answer
+
+    def __call__(self, ht):
+        return self.fn(ht)
 
 
 # ---------- legacy ----------
@@ -102,15 +141,18 @@ def check_legacy(case):
     txd, idx, ht = case["tx"], case["idx"], case["hash_type"]
     sc = bytes.fromhex(case["script_code"])
     tx = build.tx(txd, False)
-    want = ref.legacy(sc, txd, idx, ht)
-    got = _lib(sig_hash.legacy, sc, tx, idx, ht)
-    if got != ("ok", want):
+    truncated = ref.is_truncated(sc)
+    # a script code ending in a push that cannot be read never verifies, and the definitions of its digest differ (FindAndDelete keeps the tail, Core's
+    # serializer since 0.14 stops after the push's length bytes): either digest, or a refusal, is right there
+    accepted = [ref.legacy(sc, txd, idx, ht)] + ([ref.legacy(sc, txd, idx, ht, tail="core")] if truncated else [])
+    bad = _judge(_Call(lambda h: sig_hash.legacy(sc, tx, idx, h), _spellings(ht), must_answer=not truncated), accepted)
+    if bad:
         base = ht & 0x1F
         raise Violation(
-            f"legacy:mismatch:base={base if base in (1,2,3) else 'other'}:acp={bool(ht & 0x80)}:single_oob={base == 3 and idx >= len(txd['vout'])}",
-            f"lib={got[0]} {got[1].hex() if got[0]=='ok' else ''} ref={want.hex()}",
+            f"legacy:mismatch:{bad[0]}:base={base if base in (1,2,3) else 'other'}:acp={bool(ht & 0x80)}:single_oob={base == 3 and idx >= len(txd['vout'])}:truncated={truncated}",
+            bad[1],
         )
-    nt = len(txd["vin"]) >= 2 or (ht & 0x1F) != 1 or bool(ht & 0x80) or b"\xab" in sc
+    nt = len(txd["vin"]) >= 2 or (ht & 0x1F) != 1 or bool(ht & 0x80) or _separators(sc) > 0
     return Outcome(nt, _tags(txd, ht, sc))
 
 
@@ -135,12 +177,13 @@ def check_segwit(case):
     want = ref.segwit_v0(sc, txd, idx, ht, case["amount"])
     pre = None
     if case["precomputed"]:
-        pre = sig_hash.PrecomputedTxData(tx, [build.tx_out({"value": 0, "spk": ""}) for _ in txd["vin"]])
-    got = _lib(sig_hash.segwit_v0, sc, tx, idx, ht, case["amount"], pre)
-    if got != ("ok", want):
+        pre = sig_hash.PrecomputedTxData(tx, [build.tx_out({"value": 0, "spk": ""}, check_validity=False) for _ in txd["vin"]])
+    in_range = 0 <= case["amount"] <= 21 * 10**14  # BIP143 hashes the 8 bytes of the amount and says nothing of its sign: outside the money range a refusal is as good
+    bad = _judge(_Call(lambda h: sig_hash.segwit_v0(sc, tx, idx, h, case["amount"], pre), _spellings(ht)), [want], in_range)
+    if bad:
         raise Violation(
-            f"segwit_v0:mismatch:base={ht & 0x1F if ht & 0x1F in (1,2,3) else 'other'}:acp={bool(ht & 0x80)}:pre={case['precomputed']}",
-            f"lib={got} ref={want.hex()}",
+            f"segwit_v0:mismatch:{bad[0]}:base={ht & 0x1F if ht & 0x1F in (1,2,3) else 'other'}:acp={bool(ht & 0x80)}:pre={case['precomputed']}:amount-in-range={in_range}",
+            bad[1],
         )
     nt = len(txd["vin"]) >= 2 or (ht & 0x1F) != 1 or bool(ht & 0x80)
     return Outcome(nt, _tags(txd, ht, sc) + (("pre",) if pre else ()))
@@ -157,7 +200,7 @@ def taproot_case(draw):
         "tx": tx,
         "idx": draw(st.integers(0, n - 1)),
         "spent": spent,
-        "hash_type": draw(st.one_of(st.sampled_from(list(ref.TAPROOT_VALID)), st.sampled_from([4, 0x80, 0x84, 0x41, 0xFF, 0x100, 0x101, -1]))),
+        "hash_type": draw(st.one_of(st.sampled_from(list(ref.TAPROOT_VALID)), st.sampled_from(list(ref.TAPROOT_VALID)), st.sampled_from(list(ref.TAPROOT_VALID)), st.sampled_from([4, 0x80, 0x84, 0x41, 0xFF, 0x100, 0x101, -1]))),
         "annex": draw(st.one_of(st.none(), st.binary(min_size=0, max_size=20).map(lambda b: (b"\x50" + b).hex()))),
         "scriptpath": scriptpath,
         "leaf_hash": draw(g.hex32()) if scriptpath else "",
@@ -169,7 +212,7 @@ def taproot_case(draw):
 def check_taproot(case):
     txd, idx, ht = case["tx"], case["idx"], case["hash_type"]
     tx = build.tx(txd, False)
-    spent = [build.tx_out(s) for s in case["spent"]]
+    spent = [build.tx_out(s, check_validity=False) for s in case["spent"]]
     annex = None if case["annex"] is None else bytes.fromhex(case["annex"])
     ext = b""
     if case["scriptpath"]:
@@ -212,9 +255,10 @@ def dispatch_case(draw):
     script = draw(g.script_code(truncated_ok=False))  # inner script (redeem / witness / leaf / bare)
     spent = [{"value": draw(g.amount()), "spk": draw(g.hexbytes(0, 30))} for _ in range(n)]
     # other inputs must have valid prevouts for taproot commitments: anything goes
+    # which separator the script code starts after: reduced at check time to 0 .. (separators in the script) + 1, so that most choices name one that exists
     codesep_index = 0
     if kind in ("bare", "p2sh", "p2wsh", "p2sh_p2wsh") and draw(st.booleans()):
-        codesep_index = draw(st.integers(0, 3))
+        codesep_index = draw(st.integers(1, 12))
     ht_legacy = draw(hash_type32())
     ht_tap = draw(st.sampled_from(list(ref.TAPROOT_VALID)))
     return {
@@ -248,7 +292,7 @@ def check_dispatch(case):
     spent = json.loads(json.dumps(case["spent"]))
     amount = spent[idx]["value"]
     i = txd["vin"][idx]
-    k = case["codesep_index"]
+    k = case["codesep_index"] % (_separators(script) + 2) if case["codesep_index"] else 0
     want = None  # None = refusal expected
     if kind == "p2pk":
         spk = g.push(key) + b"\xac"
@@ -280,6 +324,8 @@ def check_dispatch(case):
         if kind == "p2sh_p2wpkh":
             spk = b"\xa9\x14" + _h160(prog) + b"\x87"
             i["script_sig"] = g.push(prog).hex()
+        if kind == "p2wpkh":
+            i["script_sig"] = ""  # a native witness program is spent with an empty script_sig
         i["witness"] = ["3044", key.hex()]
         sc = b"\x76\xa9\x14" + _h160(key) + b"\x88\xac"
         want = ref.segwit_v0(sc, txd, idx, ht, amount)
@@ -289,17 +335,21 @@ def check_dispatch(case):
         if kind == "p2sh_p2wsh":
             spk = b"\xa9\x14" + _h160(prog) + b"\x87"
             i["script_sig"] = g.push(prog).hex()
+        if kind == "p2wsh":
+            i["script_sig"] = ""
         i["witness"] = ["01", script.hex()]
         tail = _nth_codesep_tail(script, k)
         want = None if tail is None else ref.segwit_v0(tail, txd, idx, ht, amount)
     elif kind == "p2tr_key":
         spk = b"\x51\x20" + key[1:]
+        i["script_sig"] = ""
         i["witness"] = ["aa" * 64] + ([case["annex"]] if case["annex"] else [])
         spent[idx]["spk"] = spk.hex()
         want = ref.taproot(txd, idx, spent, ht, annex=bytes.fromhex(case["annex"]) if case["annex"] else None)
     else:  # p2tr_script
         spk = b"\x51\x20" + key[1:]
         control = bytes([case["leaf_version"] | 1]) + bytes.fromhex(case["control_tail"])
+        i["script_sig"] = ""
         i["witness"] = ["01", script.hex(), control.hex()] + ([case["annex"]] if case["annex"] else [])
         spent[idx]["spk"] = spk.hex()
         want = ref.taproot(
@@ -308,18 +358,28 @@ def check_dispatch(case):
         )
     spent[idx]["spk"] = spk.hex()
     tx = build.tx(txd, False)
-    prevouts = [build.tx_out(s) for s in spent]
+    prevouts = [build.tx_out(s, check_validity=False) for s in spent]
     pre = sig_hash.PrecomputedTxData(tx, prevouts) if case["precomputed"] else None
-    got = _lib(sig_hash.from_tx, prevouts, tx, idx, ht, pre, codesep_index=k)
-    exp = ("refused",) if want is None else ("ok", want)
-    if got != exp:
-        raise Violation(f"dispatch:mismatch:kind={kind}:codesep={k > 0}:pre={case['precomputed']}", f"lib={got} ref={exp}")
-    return Outcome(want is not None, (kind, "codesep" if k else "nocodesep"))
+    if want is None:
+        got = _lib(sig_hash.from_tx, prevouts, tx, idx, ht, pre, codesep_index=k)
+        if got != ("refused",):
+            raise Violation(f"dispatch:mismatch:kind={kind}:codesep={k > 0}:pre={case['precomputed']}", f"lib={got} ref=refused (the script has {_separators(script)} separators, asked for number {k})")
+        return Outcome(False, (kind, "codesep-refused"))
+    spell = [ht] if kind.startswith("p2tr") else _spellings(ht)
+    bad = _judge(_Call(lambda h: sig_hash.from_tx(prevouts, tx, idx, h, pre, codesep_index=k), spell), [want])
+    if bad:
+        raise Violation(f"dispatch:mismatch:{bad[0]}:kind={kind}:codesep={k > 0}:pre={case['precomputed']}", bad[1])
+    return Outcome(True, (kind, "codesep-ok" if k else "nocodesep"))
 
+
+from checks import c09_psbt  # noqa: E402
 
 SUBCHECKS = [
     SubCheck("legacy", check_legacy, "non-trivial: >=2 inputs, or non-ALL/ANYONECANPAY hash type, or a code separator in the script code", legacy_case, quick=10000, thorough=120000),
     SubCheck("segwit_v0", check_segwit, "non-trivial: >=2 inputs or non-ALL hash type", segwit_case, quick=9000, thorough=100000),
     SubCheck("taproot", check_taproot, "non-trivial: digest produced (hash type defined, SINGLE in range) for >=2 inputs or a non-default type", taproot_case, quick=9000, thorough=100000),
+    SubCheck("psbt_paths", c09_psbt.check_psbt_sighash, "the digest through a PSBT (psbt.ecdsa_sig_hash / psbt.taproot_sig_hash) and through a streamed view of its bytes (PsbtView, inside a longer stream) == the model's for the transaction the "
+             "PSBT describes: 1..3 inputs of the ten prevout kinds with their utxos (non-witness, witness or both), redeem / witness / leaf scripts, PSBT v0 and v2, built or re-parsed, the hash type in the input's field, passed by the caller or defaulted; "
+             "non-trivial: both paths answered", c09_psbt.psbt_sighash_case, quick=3000, thorough=40000),
     SubCheck("dispatch", check_dispatch, "non-trivial: from_tx produced a digest for the generated prevout kind", dispatch_case, quick=9000, thorough=100000),
 ]
